@@ -21,7 +21,8 @@ Obs == ndJsonDeserialize("obs.ndjson")
 
 CfgOf(o) == [impl |-> o.case.impl, kinds |-> o.case.kinds, linkm |-> o.case.linkm,
              maskm |-> o.case.maskm, devnull |-> o.case.devnull]
-EnvOf(o) == [proc |-> ToSet(o.procfacts), srcfl |-> ToSet(o.srcfl), lockfl |-> ToSet(o.lockfl)]
+EnvOf(o) == [proc |-> ToSet(o.procfacts), srcfl |-> ToSet(o.srcfl), lockfl |-> ToSet(o.lockfl),
+             sharefl |-> ToSet(o.sharefl), shared |-> o.srcshared]
 
 \* error locations of the mount block (pkg/forkexec/errloc_linux.go) and of the container init
 MountPhases == {"mount(root)", "mount(tmpfs)", "mount(chdir)", "mount", "mount(mkdir)", "pivot_root",
@@ -49,18 +50,18 @@ OptsOf(m) == (IF "RDONLY" \in m.fl THEN {"ro"} ELSE {}) \cup (IF "NOSUID" \in m.
 ExpMi(st) == [j \in DOMAIN st.mt |->
                 [at |-> st.mt[j].at, fs |-> st.mt[j].fs,
                  root |-> IF st.mt[j].fs = "bind" THEN st.mt[j].id ELSE "/",
-                 opts |-> OptsOf(st.mt[j]), sbro |-> st.mt[j].sbro]]
+                 opts |-> OptsOf(st.mt[j]), sbro |-> st.mt[j].sbro, prop |-> st.mt[j].prop]]
 \* a bind shows the file system type of its source: only compared for non-binds
 SameMi(mi, st) ==
   /\ Len(mi) = Len(st.mt)
   /\ \A j \in DOMAIN mi :
        LET e == ExpMi(st)[j]
-       IN /\ mi[j].at = e.at /\ ToSet(mi[j].opts) = e.opts /\ mi[j].sbro = e.sbro
+       IN /\ mi[j].at = e.at /\ ToSet(mi[j].opts) = e.opts /\ mi[j].sbro = e.sbro /\ mi[j].prop = e.prop
           /\ IF e.fs = "bind" THEN mi[j].root = e.root ELSE mi[j].fs = e.fs /\ mi[j].root = "/"
 
 \* the two readings of the table (driver from outside before exec, probe from inside) must agree; the
 \* root field is left out: cgroupfs renders it relative to the reader's cgroup namespace
-MiKey(mi) == [j \in DOMAIN mi |-> <<mi[j].at, mi[j].fs, mi[j].opts, mi[j].sbro>>]
+MiKey(mi) == [j \in DOMAIN mi |-> <<mi[j].at, mi[j].fs, mi[j].opts, mi[j].sbro, mi[j].prop>>]
 
 ModOps(t) == { r \in ToSet(t.ops) : r.e >= 0 }          \* attempted operations
 AnyOK(t)  == \E r \in ModOps(t) : r.e = 0
@@ -74,7 +75,9 @@ ExpKind(st, p, env) ==
 Judge(o) ==
   LET cfg == CfgOf(o)
       env == EnvOf(o)
-      exp == Final(cfg, env)
+      \* the namespace the program lives in: built by the sequence, then (when the driver did so) the
+      \* host has mounted a file system below every shared-propagation source
+      exp == IF o.dynmounted > 0 THEN HostMounted(Final(cfg, env), env) ELSE Final(cfg, env)
       et  == Tree(exp, env)
       ot  == { [p |-> x.p, t |-> x.t] : x \in ToSet(o.tree) }
   IN IF exp.fail THEN { F("model", "model-cannot-build", "", <<>>) }
@@ -85,6 +88,8 @@ Judge(o) ==
           { F("viol", "extra-visible", x.t, x.p) : x \in ot \ et }
      \cup { F("drift", "missing", x.t, x.p) : x \in et \ ot }
      \cup (IF o.trunc THEN { F("viol", "tree-too-large", "", <<>>) } ELSE {})
+       \* no mount of the sandbox may receive propagation from the host (mountinfo: shared:/master: tags)
+     \cup { F("viol", "receives-propagation", o.mi[j].prop, o.mi[j].at) : j \in { k \in DOMAIN o.mi : o.mi[k].prop # "private" } }
        \* nothing of the host is reachable
      \cup (IF o.oldroot = 0 THEN { F("viol", "old-root-present", "", <<"old_root">>) } ELSE {})
      \cup (IF o.dotdot THEN { F("viol", "dotdot-escape", "", <<>>) } ELSE {})
